@@ -534,6 +534,8 @@ struct Annot {
     fkey: String,
     counter: usize,
     ccounter: usize,
+    closures_seen: Vec<(usize, String, String)>,   /* (ordinal, signature hash, parameter text) */
+    cl_remap: HashMap<usize, usize>,               /* actual ordinal -> contract ordinal (degraded matching) */
     closure_specs: HashSet<String>,
     anchors: Vec<(bool, String, String, bool)>, /* (after?, substr, marker, matched) */
     headers: Vec<(usize, String, String, usize)>, /* (k, kind+header text, hash, src line) */
@@ -625,8 +627,13 @@ impl VisitMut for Annot {
         if let Expr::Closure(_) = e {
             self.ccounter += 1;
             let k = self.ccounter;
+            if let Expr::Closure(c) = e {
+                let ptxt = c.inputs.iter().map(|p| norm(p)).collect::<Vec<_>>().join(",");
+                self.closures_seen.push((k, fnv(&ptxt), ptxt));
+            }
             visit_mut::visit_expr_mut(self, e);
-            let key = format!("__vx_cl_{}_{}", self.fkey, k);
+            let kc = self.cl_remap.get(&k).cloned().unwrap_or(k);
+            let key = if self.cl_remap.is_empty() || self.cl_remap.contains_key(&k) { format!("__vx_cl_{}_{}", self.fkey, kc) } else { String::from("__vx_cl_none") };
             if self.closure_specs.contains(&key) {
                 if let Expr::Closure(c) = e {
                     let m = Ident::new(&key, proc_macro2::Span::call_site());
@@ -651,6 +658,7 @@ struct Contracts {
     anchors: Vec<(String, bool, String, String)>,    // (fnkey, after?, substr, marker)
     hdr_expect: HashMap<(String, usize), String>,    // (fnkey, loop k) -> fingerprint
     loops_expect: HashMap<String, usize>,            // fnkey -> number of loops when the contract was written
+    closure_sig: HashMap<(String, usize), String>,   // (fnkey, closure ordinal) -> fingerprint of the parameter list when the contract was written
     locals_expect: HashMap<String, Vec<String>>,     // fnkey -> parameter and local binding names, in order, when the contract was written
     sections: Vec<(String, String, String)>,         // (fnkey, kind, file) for the log
 }
@@ -658,7 +666,7 @@ struct Contracts {
 fn load_contracts(paths: &[String]) -> Contracts {
     // sections: "#fn NAME" then "#requires", "#ensures", "#spec" (raw, after ensures), "#inv K [@hdr=H]", "#dec K", "#bs K",
     // "#be K", "#pre K", "#post K", "#fs", "#closure K", "#before TEXT", "#after TEXT". Sections with the same key are concatenated.
-    let mut c = Contracts { text: HashMap::new(), anchors: vec![], hdr_expect: HashMap::new(), loops_expect: HashMap::new(), locals_expect: HashMap::new(), sections: vec![] };
+    let mut c = Contracts { text: HashMap::new(), anchors: vec![], hdr_expect: HashMap::new(), loops_expect: HashMap::new(), locals_expect: HashMap::new(), closure_sig: HashMap::new(), sections: vec![] };
     let mut anc_count = 0usize;
     for path in paths {
         let txt = std::fs::read_to_string(path).unwrap_or_else(|e| { eprintln!("VX-ERROR cannot read contracts {}: {}", path, e); std::process::exit(4) });
@@ -696,7 +704,11 @@ fn load_contracts(paths: &[String]) -> Contracts {
                         for p in &parts[2..] { if let Some(h) = p.strip_prefix("@hdr=") { c.hdr_expect.insert((f.clone(), kk), h.to_string()); } }
                         format!("__vx_{}_{}_{}", parts[0], f, parts[1])
                     }
-                    "closure" => format!("__vx_cl_{}_{}", f, parts[1]),
+                    "closure" => {
+                        let kk: usize = parts[1].parse().unwrap_or(0);
+                        for p in &parts[2..] { if let Some(h) = p.strip_prefix("@sig=") { c.closure_sig.insert((f.clone(), kk), h.to_string()); } }
+                        format!("__vx_cl_{}_{}", f, parts[1])
+                    }
                     _ => { eprintln!("VX-ERROR {}:{} unknown section {}", path, ln + 1, parts[0]); std::process::exit(4); }
                 };
                 key = Some(k.clone());
@@ -1134,7 +1146,7 @@ fn item_name(item: &Item) -> Option<String> {
 }
 
 struct Ctx<'a> { o: &'a Opts, p: Passes, c: &'a Contracts, out: String, found: Vec<String>, loops: Vec<(String, usize, String, String, usize)>, errors: Vec<String>,
-    remap: HashMap<(String, usize), Option<usize>>, degraded: Vec<String>, lrename: HashMap<String, HashMap<String, String>>, locals: Vec<(String, Vec<String>)> }
+    remap: HashMap<(String, usize), Option<usize>>, degraded: Vec<String>, lrename: HashMap<String, HashMap<String, String>>, locals: Vec<(String, Vec<String>)>, closures: Vec<(String, usize, String, String)> }
 
 fn process_fn(cx: &mut Ctx, vis: &Visibility, sig: &Signature, block: &Block, in_trait_impl: bool) {
     let name = sig.ident.to_string();
@@ -1259,8 +1271,38 @@ fn process_fn(cx: &mut Ctx, vis: &Visibility, sig: &Signature, block: &Block, in
         }
     }
     if !lmap.is_empty() { cx.lrename.insert(fkey.clone(), lmap.clone()); }
+    // closures with a contract are identified by ordinal + fingerprint of their parameter list; a pre-pass in the annotator's own
+    // traversal order lists the closures the function has now
+    let mut cl_remap: HashMap<usize, usize> = HashMap::new();
+    {
+        let mut probe = Annot { fkey: fkey.clone(), counter: 0, ccounter: 0, closures_seen: vec![], cl_remap: HashMap::new(), closure_specs: HashSet::new(), anchors: vec![], headers: vec![] };
+        let mut b2 = block.clone();
+        probe.visit_block_mut(&mut b2);
+        for (k, h, t) in probe.closures_seen.iter() { cx.closures.push((fkey.clone(), *k, h.clone(), t.clone())); }
+        let mut contract: Vec<(usize, String)> = cx.c.closure_sig.iter().filter(|((f, _), _)| *f == fkey).map(|((_, k), h)| (*k, h.clone())).collect();
+        contract.sort();
+        let moved = contract.iter().any(|(k, h)| probe.closures_seen.iter().find(|(ak, _, _)| ak == k).map(|(_, ah, _)| ah != h).unwrap_or(true));
+        if moved {
+            if !cx.o.tolerant {
+                cx.errors.push(format!("ANCHOR-LOST fn {}: a closure under contract is no longer at its ordinal (closures were added, removed or reordered)", fkey));
+            } else {
+                let actual: Vec<(usize, String)> = probe.closures_seen.iter().map(|(k, h, _)| (*k, h.clone())).collect();
+                let (n1, n2) = (contract.len(), actual.len());
+                let mut dp = vec![vec![0usize; n2 + 1]; n1 + 1];
+                for i in (0..n1).rev() { for j in (0..n2).rev() { dp[i][j] = if contract[i].1 == actual[j].1 { dp[i + 1][j + 1] + 1 } else { dp[i + 1][j].max(dp[i][j + 1]) }; } }
+                let (mut i, mut j) = (0usize, 0usize);
+                while i < n1 && j < n2 {
+                    if contract[i].1 == actual[j].1 && dp[i][j] == dp[i + 1][j + 1] + 1 { cl_remap.insert(actual[j].0, contract[i].0); i += 1; j += 1; }
+                    else if dp[i + 1][j] >= dp[i][j + 1] { i += 1; } else { j += 1; }
+                }
+                let orphans: Vec<usize> = contract.iter().filter(|(k, _)| !cl_remap.values().any(|v| v == k)).map(|(k, _)| *k).collect();
+                cx.degraded.push(format!("{}\tclosures\tremapped={:?} orphan_contract_closures={:?}", fkey, cl_remap, orphans));
+                if cl_remap.is_empty() { cl_remap.insert(usize::MAX, usize::MAX); }
+            }
+        }
+    }
     let mut a = Annot {
-        fkey: fkey.clone(), counter: 0, ccounter: 0,
+        fkey: fkey.clone(), counter: 0, ccounter: 0, closures_seen: vec![], cl_remap,
         closure_specs: cx.c.text.keys().filter(|k| k.starts_with("__vx_cl_")).cloned().collect(),
         anchors: cx.c.anchors.iter().filter(|x| x.0 == fkey).map(|x| (x.1, if lmap.is_empty() { x.2.clone() } else { rename_idents(&x.2, &lmap) }, x.3.clone(), false)).collect(),
         headers: vec![],
@@ -1337,7 +1379,7 @@ fn main() {
     let renames: Vec<(String, String)> = o.renames.iter().map(|s| (s.to_string(), format!("v_{}", s))).collect();
     let contracts = load_contracts(&o.contracts);
     let p = Passes { opdesugar: o.opdesugar, mapcollect: o.mapcollect, extendmap: o.extendmap, tryinto: o.tryinto, renames, log: vec![] };
-    let mut cx = Ctx { o: &o, p, c: &contracts, out: String::new(), found: vec![], loops: vec![], errors: vec![], remap: HashMap::new(), degraded: vec![], lrename: HashMap::new(), locals: vec![] };
+    let mut cx = Ctx { o: &o, p, c: &contracts, out: String::new(), found: vec![], loops: vec![], errors: vec![], remap: HashMap::new(), degraded: vec![], lrename: HashMap::new(), locals: vec![], closures: vec![] };
     let wanted = |n: &str| o.names.iter().any(|x| x == n) || o.stubs.iter().any(|x| x == n);
     for item in file.items.iter() {
         if let Some(n) = item_name(item) {
@@ -1381,6 +1423,7 @@ fn main() {
         let mut s = String::new();
         for l in cx.p.log.iter() { s.push_str(&format!("RULE\t{}\t{}\n", o.src, l)); }
         for (f, k, hdr, h, line) in cx.loops.iter() { s.push_str(&format!("LOOP\t{}\t{}\t{}\t{}\t{}\t{}\n", o.src, f, k, h, line, hdr)); }
+        for (f, k, h, t) in cx.closures.iter() { s.push_str(&format!("CLOSURE\t{}\t{}\t{}\t{}\t{}\n", o.src, f, k, h, t)); }
         for (f, names) in cx.locals.iter() { s.push_str(&format!("LOCALS\t{}\t{}\t{}\n", o.src, f, names.join(","))); }
         for e in cx.errors.iter() { s.push_str(&format!("ERROR\t{}\t{}\n", o.src, e)); }
         for d in cx.degraded.iter() { s.push_str(&format!("DEGRADED\t{}\t{}\n", o.src, d)); }
